@@ -94,3 +94,20 @@ def replay_trace(trace, make_impl, apply_edge, project, view):
 def mismatch_sig(prefix, m):
     name = tlc.parse_action_label(m.label)[0] if m.label != "<init>" else "init"
     return f"{prefix}:{name}:{','.join(sorted(m.diff))}"
+
+
+def shutdown_loop(loop, rounds=6):
+    """Finish every task of a virtual loop deterministically (cancel + run until idle) before the loop is dropped, so
+    that no coroutine is finalised later by the garbage collector while another loop is running (a `finally:` or a
+    bare `except:` of the code under test could then create tasks on the wrong loop).  Returns recorded loop errors."""
+    from asyncio import tasks as _t
+    for _ in range(rounds):
+        pending = [t for t in _t.all_tasks(loop) if not t.done()]
+        if not pending:
+            break
+        for t in pending:
+            t.cancel()
+        loop.run_until_idle(advance=False, max_steps=100_000)
+    errs = [e for e in loop.errors if "exception was never retrieved" not in str(e.get("message", ""))]
+    loop.dispose()
+    return errs
